@@ -105,7 +105,8 @@ theorem pushBack_spec {s : Seg} {l : List Nat} {k : Nat} (h : Linked s l) (hk : 
 theorem appendSlot_spec {s : Seg} {l : List Nat} {k : Nat} {rest : List Nat} (id gid g : Nat) (adv : Int)
     (hl : Linked s l) (hc : CleanX s l) (hf : s.free = k :: rest) :
     Linked (s.appendSlot id gid g adv) (l ++ [k]) ∧ CleanX (s.appendSlot id gid g adv) (l ++ [k]) ∧
-    (s.appendSlot id gid g adv).free = rest ∧ (s.appendSlot id gid g adv).numGlyphs = s.numGlyphs := by
+    (s.appendSlot id gid g adv).free = rest ∧ (s.appendSlot id gid g adv).numGlyphs = s.numGlyphs ∧
+    (s.appendSlot id gid g adv).slots.size = s.slots.size := by
   obtain ⟨s1, e1, l1, c1, hkl, hks, hfr, hkn, hkd, hkc, hng⟩ := newSlot_free_spec g hl hc hf (fun _ _ => .inr trivial)
   unfold Seg.appendSlot
   rw [e1]
@@ -114,7 +115,9 @@ theorem appendSlot_spec {s : Seg} {l : List Nat} {k : Nat} {rest : List Nat} (id
   have l2 := l1.same ss
   have hkn2 : ((s1.upd k fun sl => sl.initFor id gid adv).get k).next = none := by rw [(ss.slot k).1]; exact hkn
   obtain ⟨l3, t3⟩ := pushBack_spec l2 hkl (by simpa using hks) hkn2
-  refine ⟨l3, ⟨?_, ?_, ?_, ?_, ?_⟩, by rw [t3.free, ss.free, hfr], by rw [t3.numGlyphs, ss.numGlyphs, hng]⟩
+  have hsz1 : s1.slots.size = s.slots.size := by
+    unfold Seg.newSlot at e1; rw [hf] at e1; simp only [Option.some.injEq, Prod.mk.injEq] at e1; rw [← e1.2]; simp
+  refine ⟨l3, ⟨?_, ?_, ?_, ?_, ?_⟩, by rw [t3.free, ss.free, hfr], by rw [t3.numGlyphs, ss.numGlyphs, hng], by rw [t3.size, ss.size, hsz1]⟩
   · intro j hj
     rw [(t3.flags j).1, (t3.flags j).2, (ss.slot j).2.2.1, (ss.slot j).2.2.2]
     rcases List.mem_append.mp hj with hj | hj
@@ -143,22 +146,32 @@ theorem appendSlot_spec {s : Seg} {l : List Nat} {k : Nat} {rest : List Nat} (id
 /-- appending one slot per element, as long as the free list lasts -/
 theorem appendAll_spec (gidOf advOf : Nat → Nat → Int) (gf : Nat → Nat) (af : Nat → Int) :
     ∀ (xs : List (Nat × Nat)) (s : Seg) (l : List Nat), Linked s l → CleanX s l → xs.length ≤ s.free.length →
+    (∀ j, j < s.slots.size → j ∉ s.free → j ∈ l) →
     ∃ l', Linked (xs.foldl (fun s (x : Nat × Nat) => s.appendSlot x.2 (gf x.1) 64 (af x.1)) s) l' ∧
       CleanX (xs.foldl (fun s (x : Nat × Nat) => s.appendSlot x.2 (gf x.1) 64 (af x.1)) s) l' ∧
       l'.length = l.length + xs.length ∧
-      (xs.foldl (fun s (x : Nat × Nat) => s.appendSlot x.2 (gf x.1) 64 (af x.1)) s).numGlyphs = s.numGlyphs := by
+      (xs.foldl (fun s (x : Nat × Nat) => s.appendSlot x.2 (gf x.1) 64 (af x.1)) s).numGlyphs = s.numGlyphs ∧
+      (∀ j, j < (xs.foldl (fun s (x : Nat × Nat) => s.appendSlot x.2 (gf x.1) 64 (af x.1)) s).slots.size →
+        j ∉ (xs.foldl (fun s (x : Nat × Nat) => s.appendSlot x.2 (gf x.1) 64 (af x.1)) s).free → j ∈ l') := by
   intro xs
   induction xs with
-  | nil => intro s l hl hc _; exact ⟨l, hl, hc, by simp, rfl⟩
+  | nil => intro s l hl hc _ hA; exact ⟨l, hl, hc, by simp, rfl, hA⟩
   | cons x rest ih =>
-    intro s l hl hc hlen
+    intro s l hl hc hlen hA
     simp only [List.foldl_cons]
     cases hfree : s.free with
     | nil => rw [hfree] at hlen; simp at hlen
     | cons k fr =>
-      obtain ⟨a1, a2, a3, a4⟩ := appendSlot_spec x.2 (gf x.1) 64 (af x.1) hl hc hfree
-      obtain ⟨l', b1, b2, b3, b4⟩ := ih _ (l ++ [k]) a1 a2 (by rw [a3]; rw [hfree] at hlen; simp at hlen ⊢; omega)
-      exact ⟨l', b1, b2, by rw [b3]; simp; omega, by rw [b4, a4]⟩
+      obtain ⟨a1, a2, a3, a4, a5⟩ := appendSlot_spec x.2 (gf x.1) 64 (af x.1) hl hc hfree
+      have hA' : ∀ j, j < (s.appendSlot x.2 (gf x.1) 64 (af x.1)).slots.size → j ∉ (s.appendSlot x.2 (gf x.1) 64 (af x.1)).free →
+          j ∈ l ++ [k] := by
+        intro j h1 h2
+        rw [a5] at h1; rw [a3] at h2
+        by_cases hjk : j = k
+        · rw [hjk]; simp
+        · exact List.mem_append_left _ (hA j h1 (by rw [hfree]; intro hh; rcases List.mem_cons.mp hh with h | h; exact hjk h; exact h2 h))
+      obtain ⟨l', b1, b2, b3, b4, b5⟩ := ih _ (l ++ [k]) a1 a2 (by rw [a3]; rw [hfree] at hlen; simp at hlen ⊢; omega) hA'
+      exact ⟨l', b1, b2, by rw [b3]; simp; omega, by rw [b4, a4], b5⟩
 
 theorem get_replicate_default (n j : Nat) (s : Seg) (h : s.slots = Array.replicate n {}) : s.get j = {} := by
   unfold Seg.get
@@ -179,9 +192,14 @@ theorem initSeg_wf (font : Font) (text : List Nat) : WF (initSeg font text) := b
     simpa using this
   have hc0 : CleanX s0 [] := ⟨fun i hi => (by cases hi), List.nodup_range, hinb, fun f _ hh => (by cases hh),
     fun f _ => (by rw [hg f]; exact ⟨rfl, rfl, rfl⟩)⟩
-  obtain ⟨l', h1, h2, h3, h4⟩ := appendAll_spec (fun _ _ => 0) (fun _ _ => 0) font.cmap (fun ch => font.gadv.getD (font.cmap ch) 0)
+  obtain ⟨l', h1, h2, h3, h4, h5⟩ := appendAll_spec (fun _ _ => 0) (fun _ _ => 0) font.cmap (fun ch => font.gadv.getD (font.cmap ch) 0)
     text.zipIdx s0 [] hl0 hc0 (by show text.zipIdx.length ≤ (List.range (text.length + 10)).length; simp)
-  refine ⟨l', h1, h2.toClean ?_⟩
+    (fun j hj hjf => by
+      exfalso; apply hjf
+      show j ∈ List.range (text.length + 10)
+      have : j < (Array.replicate (text.length + 10) ({} : Slot)).size := hj
+      exact List.mem_range.mpr (by simpa using this))
+  refine ⟨l', h1, h2.toClean ?_, fun j a1 a2 _ _ => h5 j a1 a2⟩
   rw [h4, h3]
   show ((text.length : Nat) : Int) = (([] : List Nat).length + text.zipIdx.length : Nat)
   simp
@@ -197,9 +215,9 @@ theorem foldl_upd_wf {α : Type} (ix : α → Nat) (f : α → Slot → Slot)
     intro s h
     simp only [List.foldl_cons]
     apply ih
-    obtain ⟨l, hl, hc⟩ := h
+    obtain ⟨l, hl, hc, ha⟩ := h
     have ss := StreamSame.upd s (ix x) (f x) (hf x)
-    exact ⟨l, hl.same ss, hc.same ss⟩
+    exact ⟨l, hl.same ss, hc.same ss, ha.same ss⟩
 
 theorem reassoc_wf {seg seg' : Seg} {n : Nat} {ci : List Assoc.CI} (h : WF seg) (e : reassoc seg n = some (seg', ci)) : WF seg' := by
   unfold reassoc at e
@@ -224,7 +242,7 @@ theorem shape_wf (font : Font) (text : List Nat) (fuel : Nat) {c : Ctx} {ci : Li
     rw [← e.1]
     exact ⟨[], ⟨by simp, fun i hi => (by cases hi), rfl, rfl, trivial⟩,
       ⟨fun i hi => (by cases hi), (by show ([] : List Nat).Nodup; simp), fun f hf => (by cases hf), fun f hf => (by cases hf),
-       fun f hf => (by cases hf), rfl⟩⟩
+       fun f hf => (by cases hf), rfl⟩, fun j hj => (by have : j < (#[] : Array Slot).size := hj; simp at this)⟩
   · split at e
     · cases e
     · cases e
